@@ -54,7 +54,8 @@ def strategy(draw):
         lay["sdims"][0]["size"] = max(lay["sdims"][0]["size"], 16)
     d = {"cls": cls, "tr": tr, "lay": lay, "seed": draw(st.integers(0, 2**31 - 1)), "perm": draw(st.integers(0, 10_000)),
          "names": draw(st.sampled_from([["S", "F"], ["obs", "cell"], ["t", "space"]])),
-         "alpha": draw(st.sampled_from([1.0, 0.5, 0.0])), "center": True, "standardize": draw(st.integers(0, 3)) == 0}
+         "alpha": draw(st.sampled_from([1.0, 0.5, 0.0])), "center": True, "standardize": draw(st.integers(0, 3)) == 0,
+         "pca": draw(st.booleans())}  # (PCA pre-reduction keeping k modes for ExtendedEOF, all modes for the cross-set classes)
     if cls in ("CPCCA", "MCA", "CPCCARotator", "multi.CCA"):
         lay2 = draw(L.layout(containers=("da",), max_sd=1, max_fd=1, max_size=4, min_samples=1, min_features=3))
         lay2["sdims"] = lay["sdims"]
@@ -118,7 +119,7 @@ def fit_model(desc, X, Y, sdims, names):
     if cls in ("EOF", "ComplexEOF", "HilbertEOF"):
         return getattr(xe.single, cls)(n_modes=k, **com).fit(X, sdims)
     if cls == "ExtendedEOF":
-        return xe.single.ExtendedEOF(n_modes=k, tau=1, embedding=2, **com).fit(X, sdims)
+        return xe.single.ExtendedEOF(n_modes=k, tau=1, embedding=2, n_pca_modes=k if desc.get("pca") else None, **com).fit(X, sdims)
     if cls == "SparsePCA":
         return xe.single.SparsePCA(n_modes=k, alpha=1e-3, beta=1e-3, **com).fit(X, sdims)
     if cls == "POP":
@@ -134,7 +135,7 @@ def fit_model(desc, X, Y, sdims, names):
         b.fit(m)
         return b
     if cls in ("CPCCA", "MCA", "CPCCARotator"):
-        kw = dict(n_modes=k, use_pca=False, sample_name=n_s, feature_name=[f_n + "1", f_n + "2"], standardize=std, solver="full", random_state=2)
+        kw = dict(n_modes=k, use_pca=bool(desc.get("pca")), n_pca_modes="all", pca_init_rank_reduction=1.0, sample_name=n_s, feature_name=[f_n + "1", f_n + "2"], standardize=std, solver="full", random_state=2)
         if cls != "MCA":
             kw["alpha"] = desc["alpha"]
         m = (xe.cross.MCA if cls == "MCA" else xe.cross.CPCCA)(**kw).fit(X, Y, sdims)
@@ -179,6 +180,8 @@ def run_case(desc, ctx):
     cls, tr = desc["cls"], desc["tr"]
     ctx.event(f"cls={cls}")
     ctx.event(f"tr={tr}")
+    if desc.get("pca") and cls in ("ExtendedEOF", "CPCCA", "MCA", "CPCCARotator"):
+        ctx.event("pca_pre_reduction")
     lay = desc["lay"]
     da, sdims = L.build(lay)
     if cls == "ComplexEOF":
